@@ -54,6 +54,7 @@ pub fn spec(id: &str) -> Spec {
             p.run_len = (300, 1500);
             p.fsync_delay_ms = (1, 200);
             p.slow_disk_pm = 250;
+            p.w_bogus = 6;
             p.slow_round_pm = 300;
             p.voters = (1, 4);
             p.paginate_pm = 500;
